@@ -182,4 +182,166 @@ theorem part_removal_stamp (now : Int) (a b : PDesc) (ha : (a.parts.map Part.id)
   rw [hparts]
   exact casPartFold_tomb b now _ hnd _ t hmem ⟨by rw [hmiss]; rfl, hlive⟩
 
+/-! ## the change of a local update reports the stamped partition -/
+
+theorem casPart_chP (other : PDesc) (now : Int) (acc : C03P.Acc) (t : Part) :
+    ((casPart other now acc t).chP = acc.chP ∨ (casPart other now acc t).chP = upsertP (ptomb t now) acc.chP) ∧
+    (pcasCond other t → (casPart other now acc t).chP = upsertP (ptomb t now) acc.chP) := by
+  unfold casPart
+  by_cases h : (getP other.parts t.id).isNone = true ∧ t.state ≠ partDeleted
+  · rw [if_pos h]; exact ⟨Or.inr rfl, fun _ => rfl⟩
+  · rw [if_neg h]; exact ⟨Or.inl rfl, fun hc => absurd hc h⟩
+
+theorem casPartFold_chP_other (other : PDesc) (now : Int) (l : List Part) (acc : C03P.Acc) (k : Int) (hk : ∀ t ∈ l, t.id ≠ k) :
+    getP (l.foldl (casPart other now) acc).chP k = getP acc.chP k := by
+  induction l generalizing acc with
+  | nil => rfl
+  | cons t ts ih =>
+    rw [List.foldl_cons, ih _ (fun x hx => hk x (by simp [hx]))]
+    rcases (casPart_chP other now acc t).1 with h | h
+    · rw [h]
+    · rw [h, getP_upsertP, if_neg (fun e => hk t (by simp) e.symm)]
+
+theorem casPartFold_chP_tomb (other : PDesc) (now : Int) (l : List Part) (hn : (l.map Part.id).Nodup) (acc : C03P.Acc) (t : Part)
+    (ht : t ∈ l) (hc : pcasCond other t) :
+    getP (l.foldl (casPart other now) acc).chP t.id = some (ptomb t now) := by
+  induction l generalizing acc with
+  | nil => simp at ht
+  | cons x xs ih =>
+    simp only [List.map_cons, List.nodup_cons] at hn
+    rw [List.foldl_cons]
+    rcases List.mem_cons.1 ht with h | h
+    · subst h
+      rw [casPartFold_chP_other _ _ _ _ _ (fun y hy e => hn.1 (by rw [← e]; exact List.mem_map_of_mem hy)),
+        (casPart_chP other now acc t).2 hc, getP_upsertP]
+      exact if_pos rfl
+    · exact ih hn.2 _ h
+
+theorem stepOwner_chP (acc : C03P.Acc) (o : Owner) : (stepOwner acc o).chP = acc.chP := by
+  unfold stepOwner; split <;> rfl
+theorem foldl_stepOwner_chP (os : List Owner) (acc : C03P.Acc) : (os.foldl stepOwner acc).chP = acc.chP := by
+  induction os generalizing acc with
+  | nil => rfl
+  | cons o os ih => rw [List.foldl_cons, ih, stepOwner_chP]
+theorem casOwner_chP (other : PDesc) (now : Int) (acc : C03P.Acc) (t : Owner) : (casOwner other now acc t).chP = acc.chP := by
+  unfold casOwner; split <;> rfl
+theorem casOwnerFold_chP (other : PDesc) (now : Int) (l : List Owner) (acc : C03P.Acc) :
+    (l.foldl (casOwner other now) acc).chP = acc.chP := by
+  induction l generalizing acc with
+  | nil => rfl
+  | cons t ts ih => rw [List.foldl_cons, ih, casOwner_chP]
+
+/-- … and the change of that local update carries the stamped partition (so it is forwarded) -/
+theorem part_removal_in_change (now : Int) (a b : PDesc) (ha : (a.parts.map Part.id).Nodup) (hb : WF b) (t : Part)
+    (ht : getP a.parts t.id = some t) (hlive : t.state ≠ partDeleted) (hmiss : getP b.parts t.id = none) :
+    ∃ ch, (C03P.merge true now a b).change = some ch ∧ getP ch.parts t.id = some (ptomb t now) := by
+  have hparts : (b.parts.foldl stepPart { this := a, chP := [], chO := [] }).this.parts = (mergeState a b).parts := by
+    rw [(foldl_stepPart _ _).1, mergeState_parts]
+  have hview : getP (mergeState a b).parts t.id = some t := by rw [view_parts a b hb, ht, hmiss]; rfl
+  have hmem : t ∈ (mergeState a b).parts := by rw [getP_eq] at hview; exact getG_mem Part.id hview
+  have hnd : ((mergeState a b).parts.map Part.id).Nodup := by
+    rw [mergeState_parts]; exact foldl_partsStep_nodup _ _ ha
+  have hchP : getP ((b.parts.foldl stepPart { this := a, chP := [], chO := [] }).this.parts.foldl (casPart b now)
+      (b.parts.foldl stepPart { this := a, chP := [], chO := [] })).chP t.id = some (ptomb t now) := by
+    rw [hparts]
+    exact casPartFold_chP_tomb b now _ hnd _ t hmem ⟨by rw [hmiss]; rfl, hlive⟩
+  unfold C03P.merge
+  simp only [if_true]
+  rw [casOwnerFold_chP, foldl_stepOwner_chP]
+  have hne : ¬ (((b.parts.foldl stepPart { this := a, chP := [], chO := [] }).this.parts.foldl (casPart b now)
+      (b.parts.foldl stepPart { this := a, chP := [], chO := [] })).chP.isEmpty = true ∧
+      (List.foldl (casOwner b now) (List.foldl stepOwner (List.foldl (casPart b now) (List.foldl stepPart { this := a, chP := [], chO := [] } b.parts)
+        (List.foldl stepPart { this := a, chP := [], chO := [] } b.parts).this.parts) b.owners)
+        (List.foldl stepOwner (List.foldl (casPart b now) (List.foldl stepPart { this := a, chP := [], chO := [] } b.parts)
+        (List.foldl stepPart { this := a, chP := [], chO := [] } b.parts).this.parts) b.owners).this.owners).chO.isEmpty = true) := by
+    intro h
+    have hnil := List.isEmpty_iff.1 h.1
+    rw [hnil] at hchP
+    simp [getP] at hchP
+  rw [if_neg hne]
+  exact ⟨_, rfl, hchP⟩
+
+/-! ## owners: the removal stamp, descriptor level -/
+
+def otomb (t : Owner) (now : Int) : Owner := { t with state := ownerDeleted, ts := now }
+def ocasCond (other : PDesc) (t : Owner) : Prop := (getO other.owners t.id).isNone = true ∧ t.state ≠ ownerDeleted
+
+theorem casOwner_owners (other : PDesc) (now : Int) (acc : C03P.Acc) (t : Owner) :
+    ((casOwner other now acc t).this.owners = acc.this.owners ∨
+     (casOwner other now acc t).this.owners = upsertO (otomb t now) acc.this.owners) ∧
+    (ocasCond other t → (casOwner other now acc t).this.owners = upsertO (otomb t now) acc.this.owners) := by
+  unfold casOwner
+  by_cases h : (getO other.owners t.id).isNone = true ∧ t.state ≠ ownerDeleted
+  · rw [if_pos h]; exact ⟨Or.inr rfl, fun _ => rfl⟩
+  · rw [if_neg h]; exact ⟨Or.inl rfl, fun hc => absurd hc h⟩
+
+theorem getO_upsertO (e : Owner) (l : List Owner) (k : String) :
+    getO (upsertO e l) k = if k = e.id then some e else getO l k := by
+  rw [getO_eq, upsertO_eq, getG_upsertG, getO_eq]
+
+theorem casOwnerFold_other (other : PDesc) (now : Int) (l : List Owner) (acc : C03P.Acc) (k : String) (hk : ∀ t ∈ l, t.id ≠ k) :
+    getO (l.foldl (casOwner other now) acc).this.owners k = getO acc.this.owners k := by
+  induction l generalizing acc with
+  | nil => rfl
+  | cons t ts ih =>
+    rw [List.foldl_cons, ih _ (fun x hx => hk x (by simp [hx]))]
+    rcases (casOwner_owners other now acc t).1 with h | h
+    · rw [h]
+    · rw [h, getO_upsertO, if_neg (fun e => hk t (by simp) e.symm)]
+
+theorem casOwnerFold_tomb (other : PDesc) (now : Int) (l : List Owner) (hn : (l.map Owner.id).Nodup) (acc : C03P.Acc) (t : Owner)
+    (ht : t ∈ l) (hc : ocasCond other t) :
+    getO (l.foldl (casOwner other now) acc).this.owners t.id = some (otomb t now) := by
+  induction l generalizing acc with
+  | nil => simp at ht
+  | cons x xs ih =>
+    simp only [List.map_cons, List.nodup_cons] at hn
+    rw [List.foldl_cons]
+    rcases List.mem_cons.1 ht with h | h
+    · subst h
+      rw [casOwnerFold_other _ _ _ _ _ (fun y hy e => hn.1 (by rw [← e]; exact List.mem_map_of_mem hy)),
+        (casOwner_owners other now acc t).2 hc, getO_upsertO]
+      exact if_pos rfl
+    · exact ih hn.2 _ h
+
+theorem casPart_owners (other : PDesc) (now : Int) (acc : C03P.Acc) (t : Part) : (casPart other now acc t).this.owners = acc.this.owners := by
+  unfold casPart; split <;> rfl
+theorem casPartFold_owners (other : PDesc) (now : Int) (l : List Part) (acc : C03P.Acc) :
+    (l.foldl (casPart other now) acc).this.owners = acc.this.owners := by
+  induction l generalizing acc with
+  | nil => rfl
+  | cons t ts ih => rw [List.foldl_cons, ih, casPart_owners]
+
+/-- **removal stamp, owners**: an owner that a local update's result lacks and that is not deleted yet is
+stored as deleted with timestamp `now` (owned partition kept) -/
+theorem owner_removal_stamp_desc' (now : Int) (a b : PDesc) (ha : WF a) (hb : WF b) (t : Owner)
+    (ht : getO a.owners t.id = some t) (hlive : t.state ≠ ownerDeleted) (hmiss : getO b.owners t.id = none) :
+    getO (C03P.merge true now a b).state.owners t.id = some (otomb t now) := by
+  -- owners after the incoming-owners loop = owners of the gossip merge
+  have howners : ∀ acc : C03P.Acc, acc.this.owners = a.owners →
+      (b.owners.foldl stepOwner acc).this.owners = (mergeState a b).owners := by
+    intro acc h
+    rw [(foldl_stepOwner _ _).1, h, mergeState_owners]
+  have hacc1 : ((b.parts.foldl stepPart { this := a, chP := [], chO := [] }).this.parts.foldl (casPart b now)
+      (b.parts.foldl stepPart { this := a, chP := [], chO := [] })).this.owners = a.owners := by
+    rw [casPartFold_owners, (foldl_stepPart _ _).2]
+  have hview : getO (mergeState a b).owners t.id = some t := by
+    rw [view_owners a b ha hb, ht, hmiss]
+    unfold joinO
+    have := ha.opos t (by rw [getO_eq] at ht; exact getG_mem Owner.id ht)
+    rw [if_neg (by simp only [orkO, ork]; split <;> omega)]
+  have hmem : t ∈ (mergeState a b).owners := by rw [getO_eq] at hview; exact getG_mem Owner.id hview
+  have hnd : ((mergeState a b).owners.map Owner.id).Nodup := by
+    rw [mergeState_owners]; exact foldl_ownersStep_nodup _ _ ha.on
+  have hstate : (C03P.merge true now a b).state.owners =
+      ((mergeState a b).owners.foldl (casOwner b now) (b.owners.foldl stepOwner
+        ((b.parts.foldl stepPart { this := a, chP := [], chO := [] }).this.parts.foldl (casPart b now)
+          (b.parts.foldl stepPart { this := a, chP := [], chO := [] })))).this.owners := by
+    unfold C03P.merge
+    simp only [if_true]
+    rw [howners _ hacc1]
+    split <;> rfl
+  rw [hstate]
+  exact casOwnerFold_tomb b now _ hnd _ t hmem ⟨by rw [hmiss]; rfl, hlive⟩
+
 end PfC04
